@@ -3,5 +3,5 @@ From Coq Require Import Extraction ExtrOcamlBasic ExtrOcamlZBigInt ZArith NArith
 From TF Require Import Codec.
 Extraction Language OCaml.
 Extraction "../ocaml/gen_c03/model.ml"
-  ty value outcome static_length encode decode has_type canon_seq implemented no_width0_list width0
+  ty value outcome static_length encode decode has_type canon_seq implemented no_width0_list width0 cost cost_coeff
   TXfe TDigest TTip5 TMmrAcc TMmrMp TMmrSp zlen.
